@@ -38,6 +38,7 @@ ASSUMPTIONS = [
   "a failed [] lookup raises a LookupError (POX: IndexError), `in` is False, get() returns the default",
   "a request's reply is 'contiguous' when no other statistics reply arrives between its parts (other message types may); only such requests must produce exactly one aggregated event; for interleaved ones only at-most-once, never-merged, never-before-the-final-part and in-order are required (of_01 documents that interleaving is unsupported)",
   "a request whose final part never arrives must not produce an aggregated event",
+  "a later request may reuse the xid (and type) of an earlier one once that one is complete; their entries must not be merged either",
   "error messages used as interleaved traffic carry no data (an error with data hit the separate, now fixed, hexdump defect recorded under C09)",
 ]
 EXHAUSTIVE_SCOPE = {
@@ -364,9 +365,7 @@ def case_stats(case, out):
     c.handshake([{"no": 1, "hw": HWS[0], "name": "eth1"}])
     by_xid = {}
     for r, req in enumerate(reqs):
-      if req["xid"] in by_xid:
-        raise HarnessError("requests must have distinct xids")
-      by_xid[req["xid"]] = r
+      by_xid.setdefault(req["xid"], []).append(r)
     ev_kinds = sorted(set(EVENT_OF.values()))
     kind_type = {}
     for t, k in EVENT_OF.items():
@@ -416,6 +415,13 @@ def case_stats(case, out):
       else:
         raise HarnessError("unknown stream item %r" % (item,))
     c.step = len(stream)
+    for x, rs in by_xid.items():
+      spans = sorted((part_steps[r][0], part_steps[r][-1]) for r in rs if part_steps[r])
+      for a, b in zip(spans, spans[1:]):
+        if b[0] <= a[1]:
+          raise HarnessError("requests that share an xid must not overlap in the stream")
+      if len(rs) > 1 and any(sent[r] not in (0, len(reqs[r]["parts"])) for r in rs):
+        raise HarnessError("a request whose xid is reused must be complete (on the wire its successor would be its continuation)")
 
     once = c.once
     # ---- classify the requests
@@ -446,11 +452,15 @@ def case_stats(case, out):
       for lv, kind, step, xids, tags in c.log:
         if lv != level or kind == "RawStatsReply":
           continue
-        owners = set(by_xid.get(x) for x in xids)
-        if len(owners) != 1 or None in owners:
+        if len(set(xids)) != 1 or xids[0] not in by_xid:
           once.fail("merged", "%s on the %s is built from parts with xids %r" % (kind, level, xids), level=level, what="parts")
           continue
-        r = owners.pop()
+        # requests that reuse an xid are sequential: the owner is the one being received at that moment
+        cands = [r for r in by_xid[xids[0]] if part_steps[r] and part_steps[r][0] <= step]
+        if not cands:
+          once.fail("merged", "%s on the %s for xid %#x before any part with that xid arrived" % (kind, level, xids[0]), level=level, what="time")
+          continue
+        r = max(cands, key=lambda q: part_steps[q][0])
         fired.setdefault(r, []).append((step, kind, tags))
       for r, req in enumerate(reqs):
         t = req["t"]
@@ -511,6 +521,8 @@ def case_stats(case, out):
         out.label("stats:empty-part")
     if len(reqs) > 1:
       out.label("stats:several-requests")
+    if any(len(rs) > 1 for rs in by_xid.values()):
+      out.label("stats:xid-reused-by-a-later-request")
     if c.excs:
       out.label("stats:handler-exception")
     out.nontrivial = nt
@@ -626,6 +638,15 @@ def enum_stats(tier):
                 if j < k:
                   stream.append(["p", 0])
               yield {"k": "stats", "reqs": [req, req2], "stream": stream}
+  # (b') a later request reuses the xid (and type) of a finished one
+  for t in ("flow", "table", "port", "queue"):
+    for sizes in ([2], [1, 1], [0, 2, 0], [1, 2, 3]):
+      for sizes2 in ([1], [1, 1], [0]):
+        a = {"t": t, "xid": 0x21, "parts": _parts_from_sizes(sizes, 1)}
+        b = {"t": t, "xid": 0x21, "parts": _parts_from_sizes(sizes2, 41)}
+        for gap_other in (False, True):
+          stream = [["p", 0]] * len(sizes) + ([["o", 0]] if gap_other else []) + [["p", 1]] * len(sizes2)
+          yield {"k": "stats", "reqs": [a, b], "stream": stream}
   # (c) two multipart replies, every merge of 3 + 2 parts, and a reply whose final part never arrives
   for t, t2 in (("flow", "flow"), ("flow", "port"), ("table", "queue")):
     a = {"t": t, "xid": 0x31, "parts": [[1, 2], [3], [4, 5]]}
@@ -686,6 +707,15 @@ def _s_stats(draw, tier):
       tag += 1
     reqs.append({"t": t, "xid": 0x40 + r, "parts": parts})
   mode = draw(st.integers(0, 3))
+  reuse = False
+  if n > 1 and reqs[0]["t"] in LIST_TYPES and draw(st.integers(0, 5)) == 0:
+    # a later request reuses xid and type of an earlier one (never while that one is outstanding)
+    for req in reqs[1:]:
+      if req["t"] in LIST_TYPES:
+        req["t"] = reqs[0]["t"]
+        req["xid"] = reqs[0]["xid"]
+    mode = 0
+    reuse = True
   seqs = [[["p", r]] * len(req["parts"]) for r, req in enumerate(reqs)]
   stream = []
   if mode <= 1 or n == 1:
@@ -702,7 +732,7 @@ def _s_stats(draw, tier):
           left[r] -= 1
           stream.append(["p", r])
           break
-  if draw(st.integers(0, 7)) == 0 and stream:
+  if not reuse and draw(st.integers(0, 7)) == 0 and stream:
     # the final part of some request never arrives: drop the last part item of one request
     r = draw(st.integers(0, n - 1))
     idx = [i for i, it in enumerate(stream) if it[1] == r]
